@@ -97,12 +97,12 @@ Theorem C13_frame :
 Proof. intros var reg g r shared ops id f st' evs HV HP st H. eapply frame; eauto. apply inv_run; auto. apply inv_init. Qed.
 Print Assumptions C13_frame.
 
-(* WHOLE-ENTRY SET.  A successful Set of a struct-valued path (interfaces.<*>, vrfs.<*>, ... with a pointer to
-   a struct) replaces the entry: below the path only the fields of the new struct remain, no container of the
+(* WHOLE-ENTRY SET.  A successful Set of a struct-valued path (a map entry such as interfaces.<*>, vrfs.<*>, or a
+   pointer field such as interfaces.<*>.ipv6, with a pointer to a struct) replaces the entry: below the path only the fields of the new struct remain, no container of the
    old entry survives, and nothing outside the entry changes.  Every variant. *)
 Theorem C13_obj_set_replaces :
   forall var s h p fs s',
-  h_kind h = KObj -> set_store var s h p (VObj fs) = (s', true) ->
+  h_kind h = KObj \/ h_kind h = KObjF -> set_store var s h p (VObj fs) = (s', true) ->
   (forall q, is_prefix_b p q = true -> (forall f, In f fs -> q <> p ++ [fst f]) -> get_leaf s' q = None) /\
   (forall c, has_cont s' c = true -> is_prefix_b p c = true -> c = p) /\
   (forall q, is_prefix_b p q = false -> get_leaf s' q = get_leaf s q).
